@@ -242,6 +242,22 @@ func runC20(c c20Case) kit.Result {
 		}
 	}
 	sort.Strings(nonPublic)
+	// the store's own list of public symbols is the set that was made public (id included)
+	{
+		want := []string{"id"}
+		for _, s := range c20Symbols {
+			if c.Public[s] {
+				want = append(want, s)
+			}
+		}
+		sort.Strings(want)
+		got := store.GetPublicSymbols()
+		sort.Strings(got)
+		if fmt.Sprint(got) != fmt.Sprint(want) {
+			res.Err = fmt.Errorf("GetPublicSymbols lists %v, made public were %v", got, want)
+			return res
+		}
+	}
 	verr := boltz.ValidateSymbolsArePublic(q, store)
 	// sort fields adopted from this query by a query parsed from the empty filter are referenced by that query too;
 	// a query parsed from the empty filter afterwards references nothing at all
